@@ -122,26 +122,7 @@ for _what in ("remove_circuit", "remove_relay", "remove_exit_socket"):
                       " or e.name.startswith('ready.') for e in trace())"],
              note="the removal waits for settings.remove_tunnel_delay once and for nothing else")
 
-# an exit entry that becomes ENABLED while its removal is waiting out the grace period (the circuit's first data cell overtaken by the
-# destroy) is closed like any other enabled one: what counts is the state of the socket when the entry is dropped, not when the removal began
-def environment_may_enable(sock):
-    """what the rest of the node may do while the removal task is suspended: exit the first data of the circuit (TunnelExitSocket.enable)"""
-    if nondet_bool():
-        sock.enabled = True
-    return True
-
-
-contract(f"{TC}::TunnelCommunity.remove_exit_socket", "remove_exit_socket.closes-what-is-enabled-when-it-is-dropped",
-         vars={"hc1": HOP(), "sock": ROUTING(f"{ES}::TunnelExitSocket", hop=HOP(), enabled=BOOL, close=CALLABLE("close", raises=()),
-                                             shutdown_task_manager=CALLABLE("sock_shutdown", raises=())),
-               "self": OBJ(f"{TC}::TunnelCommunity", logger=LOGGER(), settings=SETTINGS, exit_sockets=EXPR("{sock.circuit_id: sock}")),
-               "destroy": BOOL, "U": EXPR(f"undecorated({TCLS}, 'remove_exit_socket')")},
-         requires=["self.settings.remove_tunnel_delay >= 0"],
-         call="run_coro(U(self, sock.circuit_id, 'x', False, destroy))", raises=[], stubs=SEND_DESTROY,
-         on_effect={"await:sleep": ["environment_may_enable(sock)"]},
-         ensures=["len(self.exit_sockets) == 0", "len(calls('close')) == (1 if sock.enabled else 0)", "len(calls('sock_shutdown')) == 1"],
-         covers=["len(calls('close')) == 1", "len(calls('close')) == 0"],
-         note="no exit socket that was enabled at the moment its entry disappeared is left open")
+remove_exit_socket_grace_contract()      # shared with C04 (contracts/tunnel_common.py)
 
 contract(f"{TC}::TunnelCommunity.remove_relay", "remove_relay.forwards-destroy",
          vars={"hc1": HOP(), "self": COMM, "cid": INT, "U": EXPR(f"undecorated({TCLS}, 'remove_relay')")},
@@ -221,3 +202,31 @@ contract(f"{CR}::PythonCryptoEndpoint.send_cell", "send_cell.does-not-refresh-li
 
 # reclaiming an exit entry releases BOTH outside sockets (shared with C11)
 exit_socket_close_contract()
+
+# the relay_early budget (what bounds how long a circuit can be made through this relay) is counted and enforced on the SAME route entry:
+# the one the cell is forwarded on.  Checked at the receive entry point, so it holds wherever the test sits (process_cell or relay_cell).
+contract(f"{CR}::PythonCryptoEndpoint.process_cell", "process_cell.relay_early-budget-of-the-forwarding-route",
+         vars={"nr": RELAY(), "tr": RELAY(), "cid": RANGE(0, 2 ** 32 - 1), "re": BOOL, "msg": BYTES, "src": ADDRESS,
+               "self": OBJ(f"{CR}::PythonCryptoEndpoint", prefix=BYTES_FIXED(22), logger=LOGGER(), endpoint=EFFECT("raw", send={}),
+                           settings=OBJ(f"{TC}::TunnelSettings", max_relay_early=INT), circuits=EXPR("{}"), exit_sockets=EXPR("{}"),
+                           relays=EXPR("{cid: nr, nr.circuit_id: tr}"), tunnel_community=OPT(EFFECT("tc", on_packet={}))),
+               "data": EXPR("self.prefix + be(0, 1) + be(cid, 4) + be(0, 1) + be(ite(re, 1, 0), 1) + msg")},
+         requires=["cid != nr.circuit_id", "not nr.rendezvous_relay"],
+         call="self.process_cell(src, data)", raises=[],
+         on_effect={"raw.send": ["not re or old(nr.relay_early_count) < self.settings.max_relay_early"]},
+         ensures=["len(calls('raw.send')) <= 1",
+                  "implies(len(calls('raw.send')) == 1, nr.relay_early_count == old(nr.relay_early_count) + 1)",
+                  "tr.relay_early_count == old(tr.relay_early_count)"],
+         covers=["len(calls('raw.send')) == 1", "len(calls('raw.send')) == 0"],
+         note="however few cells flow back, at most max_relay_early relay_early cells are ever forwarded on one route")
+
+# an id that is in use - by an own circuit, a relay route or ANY exit entry - is never taken over by a new CREATE: the overwritten entry
+# (and the outside sockets it owns) could never be reclaimed.  Shared obligations of contracts/tunnel_shared.py.
+from contracts.tunnel_shared import *  # noqa: E402,F403
+
+try:
+    from ipv8.messaging.serialization import default_serializer  # noqa: E402,F401
+except ImportError:
+    pass
+EXTERNAL_MODELS = {**RUST_MODELS, **TUNNEL_MODELS, **DH_MODELS}
+on_create_and_on_data_contracts()
